@@ -81,6 +81,24 @@ def isolation(ctx: Ctx, fi, node, depth=0, seen=None):
     return None
 
 
+def _plain_switch_key(subj: str) -> bool:
+    """the key of getattr(config, KEY, ..) is PLUGIN_<NAME> put together from the literal and the plugin's name, upper-cased
+    - and nothing else done to it (a rewritten key is another key than the documented one)"""
+    try:
+        e = ast.parse(subj.replace("@", ""), mode="eval").body
+    except SyntaxError:
+        return False
+    if not (isinstance(e, ast.Call) and len(e.args) >= 2):
+        return False
+    for n in ast.walk(e.args[1]):
+        if isinstance(n, ast.Call):
+            if not (isinstance(n.func, ast.Attribute) and n.func.attr in ("upper", "format") and not n.keywords and (n.func.attr == "format" or not n.args)):
+                return False
+        elif isinstance(n, (ast.Subscript, ast.IfExp, ast.BoolOp, ast.Lambda, ast.ListComp, ast.GeneratorExp)):
+            return False
+    return True
+
+
 def key_calls_order(ctx: Ctx, key: ast.expr, fi) -> bool:
     """The sort key (lambda or function reference) yields the plugin's order()."""
     def has_order(nodes, owner):
@@ -206,6 +224,8 @@ def run(ctx: Ctx, tier: str) -> Result:
         subj = cs_[0][0][: -len(" is None")]
         setting = setting or subj
         if subj != setting or "getattr(@self.config" not in subj or "plugin_" not in subj.lower():
+            okia = False
+        elif not _plain_switch_key(subj):
             okia = False
         elif cs_[0][1]:
             okia = okia and isinstance(r.result, ast.Constant) and r.result.value is True
